@@ -195,6 +195,42 @@ def e2e_row(row):
                     out.append((f"e2e-result-type-{vname}:{kk}", f"`{row['L']} a {o} {cell['R']} b` as a {vname} is computed as {got}, the language says {cell['res']}", dict(case2, got=got)))
                 else:
                     out.append(("ok-accept", None, None))
+        # the same expression as the LEFT operand of an outer operator that converts its result: (a o b) * s with a float s.  The outer
+        # conversion applies to the inner RESULT; the inner operands are still converted as the inner operator prescribes
+        if cell["ok"] and cell["judged"] and cell["operands"] and results[False][0] == "ok":
+            c_, k_, r_, _ = parse_type(cell["res"])
+            if c_ in ("int", "uint") and k_ in ("s", "v"):
+                T2 = "float" if k_ == "s" else f"float{r_}"
+                src3 = f"export function f({row['L']} a, {cell['R']} b, float s) -> {T2}\n{{\n  return (a {o} b) * s;\n}}\n"
+                for opt in (False, True):
+                    case3 = dict(case, source=src3, position="left operand of `* s` (float s)", optimize=opt)
+                    st, r = common.compile_source(src3, {"optimize": opt})
+                    if st != "ok":
+                        out.append((f"e2e-rejects-defined-nested:{kk}", f"compiler refuses `(a {o} b) * s` ({row['L']}, {cell['R']}, float) ({r[:60]})", dict(case3, got=r)))
+                        continue
+                    bins = [i for i in r.IRModule.Functions["f"].Instructions if isinstance(i, LinearIR.BinaryInstruction)]
+                    if len(bins) != 2:
+                        out.append(("unjudged", None, None))      # another lowering shape: not judged
+                        continue
+                    # operand types by PARAMETER (the lowering may swap the operands of a commutative operator): follow casts back to the load
+                    ins3 = r.IRModule.Functions["f"].Instructions
+                    loads3 = {i.Reference: i.Variable for i in ins3 if isinstance(i, LinearIR.VariableAccessInstruction) and i.Store is None
+                              and i.Scope == LinearIR.VariableAccessScope.FUNCTION_ARGUMENT}
+                    byparam = {}
+                    for v in bins[0].Values:
+                        base = v
+                        while isinstance(base, LinearIR.CastInstruction):
+                            base = base.Value
+                        byparam[loads3.get(getattr(base, "Reference", None))] = ir_type_name(v.Type)
+                    if set(byparam) != {0, 1}:
+                        out.append(("unjudged", None, None))
+                        continue
+                    got = (byparam[0], byparam[1])
+                    if got != (cell["lt"], cell["rt"]):
+                        out.append((f"e2e-operand-conversion-nested:{kk}", f"`({row['L']} a {o} {cell['R']} b) * s`: the inner operator receives operands of types {got}, "
+                                    f"the language converts them to ({cell['lt']}, {cell['rt']}) [{'O1' if opt else 'O0'}]", dict(case3, got=list(got))))
+                    else:
+                        out.append(("ok-accept", None, None))
     return out
 
 
